@@ -383,6 +383,30 @@ Theorem C02_source_sequence_number_counter : forall sn,
 Proof. exact (fun sn => conj (src_next_sn sn) (src_next_sn_fits sn)). Qed.
 Print Assumptions C02_source_sequence_number_counter.
 
+(* Common Header of an originated packet (CommonHeader.initialize_with_request): the mobility flag is the most significant
+   bit of the flags octet, the remaining flag bits and the reserved octet are zero, PL is the request's length, MHL is 1 for
+   single-hop broadcast and the requested hop limit otherwise *)
+Theorem C02_source_mobility_flag_is_msb : forall nh ht hst tc mobile pl mhl_req, mobile = 0 \/ mobile = 1 ->
+  let '(_, _, _, _, flags, _, _, reserved) := CommonHeader_initialize_with_request nh ht hst tc mobile pl mhl_req in
+  Z.testbit flags 7 = (mobile =? 1) /\ Z.land flags 127 = 0 /\ 0 <= flags < 256 /\ reserved = 0.
+Proof. exact src_mobility_flag_msb. Qed.
+Print Assumptions C02_source_mobility_flag_is_msb.
+
+Theorem C02_source_common_header_for_request : forall nh ht hst tc mobile pl mhl_req,
+  CommonHeader_initialize_with_request nh ht hst tc mobile pl mhl_req
+  = (nh, ht, hst, tc, mobile * 128, pl, (if (ht =? 5) && (hst =? 0) then 1 else mhl_req), 0).
+Proof. exact src_common_for_request. Qed.
+Print Assumptions C02_source_common_header_for_request.
+
+(* full statement for beacons, FALSE of the code (known finding KF-C02-1, pinned by the repository's tests) *)
+Definition C02_source_beacon_mobility_flag_full : Prop :=
+  forall mobile, mobile = 0 \/ mobile = 1 ->
+  let '(_, _, _, _, flags, _, _, _) := CommonHeader_initialize_beacon mobile in Z.testbit flags 7 = (mobile =? 1).
+Theorem C02_source_beacon_mobility_flag_refuted :
+  let '(_, _, _, _, flags, _, _, _) := CommonHeader_initialize_beacon 1 in flags = 1 /\ Z.testbit flags 7 = false.
+Proof. exact src_beacon_flag_refuted. Qed.
+Print Assumptions C02_source_beacon_mobility_flag_refuted.
+
 Example C02_source_example :
   LPV_encode 0 5 [0; 0; 0; 0; 43; 103] 123456 (-338688000) (-1512093000) 1 (-300) 3599
   = Some (enc_lpv [0; 5; 11111; 123456; -338688000; -1512093000; 1; -300; 3599]).
